@@ -1,7 +1,7 @@
 """C16 - session table consistency against a dictionary."""
 from props.base import *
 NEEDS_VIEW = True     # reads the public fields of the automata objects
-COQ_TARGETS = ['props/Properties_C16.vo']
+COQ_TARGETS = ['props/Properties_C16.vo', 'props/Properties_C16h.vo']
 EXPECT_KEYS = {'cnt', 'allc', 'empty'}
 RULE = ('operation sequences of length 200 over 24 distinct (mapper, generation) keys (forcing the full-table case): add / find / remove / clear / '
         'completion update / tick / clock advance 0..200 s; every return value and public field compared with the model and, independently, with the '
